@@ -34,7 +34,11 @@ func structLits(fn *ssa.Function, match func(types.Type) bool) []map[string]ssa.
 	var out []map[string]ssa.Value
 	eachInstr(fn, func(in ssa.Instruction) {
 		a, ok := in.(*ssa.Alloc)
-		if !ok || !match(a.Type()) {
+		if !ok {
+			return
+		}
+		elem := a.Type().Underlying().(*types.Pointer).Elem()
+		if _, isStruct := elem.Underlying().(*types.Struct); !isStruct || !match(elem) {
 			return
 		}
 		m := map[string]ssa.Value{}
